@@ -406,6 +406,12 @@ class IntervalKind(AbsInt):
             return self.theta
         if attr in self.attrs:
             return self.attrs[attr]
+        # a class-level numeric constant of the concrete family (`independence_theta = 1`)
+        cls = fr.concrete if getattr(fr, 'concrete', None) is not None else None
+        if cls is not None and hasattr(cls, 'lookup_attr'):
+            hit = cls.lookup_attr(attr)
+            if hit is not None and isinstance(hit[1], ast.Constant) and isinstance(hit[1].value, (int, float)) and not isinstance(hit[1].value, bool):
+                return IV(float(hit[1].value))
         return TOP
 
     def global_name(self, dotted, node, fr):
